@@ -401,8 +401,7 @@ theorem mem_matchingIdx {α : Type} (p : α → Bool) (xs : List α) :
 theorem provide_getElem? (hl : HLedger) (m i : Nat) :
     (hl.provide m).ledger.entries[i]? =
       (hl.ledger.entries[i]?).map fun e =>
-        if (selectIdx (if hl.cfg.holderClose then holderPreimageIter else counterpartyPreimageIter)
-              (preimageScanAccepts hl.cfg m) (hl.ledger.entries.zip hl.hashes)).contains i then e.learn hl.cfg else e := by
+        if (hl.sel m).contains i then e.learn hl.cfg else e := by
   simp only [HLedger.provide, List.getElem?_mapIdx]
 
 
@@ -447,7 +446,7 @@ theorem provide_ok (hl : HLedger) (m : Nat) (h : ∀ e ∈ hl.ledger.entries, e.
     rw [hg] at hi
     simp only [Option.map_some, Option.some.injEq] at hi
     have h0 := h e0 (List.mem_of_getElem? hg)
-    generalize selectIdx _ _ _ = S at hi
+    generalize hl.sel m = S at hi
     rw [← hi]
     by_cases hc : S.contains i = true
     · rw [if_pos hc]; exact learn_ok hl.cfg e0 h0
@@ -496,7 +495,7 @@ theorem provide_csvOk (hl : HLedger) (m : Nat) (h : hl.csvOk) : (hl.provide m).c
     rw [hg] at hi
     simp only [Option.map_some, Option.some.injEq] at hi
     have h0 := h e0 (List.mem_of_getElem? hg)
-    generalize selectIdx _ _ _ = S at hi
+    generalize hl.sel m = S at hi
     rw [provide_cfg, ← hi]
     by_cases hc : S.contains i = true
     · rw [if_pos hc]; exact learn_csv hl.cfg e0 h0
